@@ -14,7 +14,7 @@
    [attrs_current s p pt] pt agrees with the ASSIGNABLE attributes SyncProducer.period, PdoMap.cob_id,
    PdoMap.period (ops SyncSetPeriod / PdoSetCob / PdoSetPeriod model the assignments). *)
 From Coq Require Import ZArith List Bool.
-From CV Require Import Base.Val Base.Tys Gen.NmtTables Gen.PeriodicTables Model.Periodic Proofs.Periodic_proofs.
+From CV Require Import Base.Val Base.Tys Gen.NmtTables Gen.PeriodicTables Model.Periodic Proofs.Periodic_proofs Gen.SrcC17 Proofs.Src_eq_c17.
 Import ListNotations.
 Open Scope Z_scope.
 
@@ -161,6 +161,77 @@ Example C17_nv_attributes :
   live_view (run (init (nv_cfg true)) ops) = VL [VL [VZ 1; VZ 450; VB [0; 0; 0]; VZ 200; VBool false]].
 Proof. vm_compute. repeat split. Qed.
 
+(* ------------------------------------------------------------------ tie (c): source text
+   PeriodicMessageTask.update, SyncProducer.start/stop and PdoMap.start/stop/update as translated from the
+   CURRENT source text (Gen/SrcC17.v, regenerated on every run) determine the model functions the theorems
+   above are about: which of stop / modify_data / _start / send_periodic is called, the position of the
+   period check relative to stop(), the period attribute and the handle afterwards. *)
+Theorem C17_src_update : forall modify b pt d,
+  pt_update modify b pt d =
+  let '(stored, act) := src_pt_update modify (list_Z_eqb d (pt_data pt)) false 0 in
+  let d' := if stored then d else pt_data pt in
+  let pt1 tid := mkP tid (pt_can pt) d' (pt_period pt) (pt_remote pt) in
+  if act =? 1 then (bus_modify b (pt_tid pt) d', pt1 (pt_tid pt))
+  else if act =? 3 then
+    (bus_stop b (pt_tid pt) ++ [mkB (pt_can pt) d' (pt_period pt) (pt_remote pt) true], pt1 (length b))
+  else if act =? 0 then (b, pt1 (pt_tid pt))
+  else (bus_stop b (pt_tid pt), pt1 (pt_tid pt)).
+Proof. exact src_pt_update_eq. Qed.
+
+Theorem C17_src_sync_start : forall s p,
+  let y := st_sync s in
+  let '(stopped, ph, pv, out) :=
+    src_sync_start (osome p) (oget p) (osome (sy_period y)) (oget (sy_period y)) false in
+  let per := mkopt ph pv in
+  let b1 := if stopped then stop_opt (st_bus s) (sy_task y) else st_bus s in
+  sync_start s p =
+  if out =? 0 then (set_sync s b1 (mkSy per (if stopped then None else sy_task y)), raised E_VALUE)
+  else match send_periodic (st_conn s) b1 SYNC_COB_ID [] pv false with
+       | Some (b2, pt) => (set_sync s b2 (mkSy per (Some pt)), ok)
+       | None => (set_sync s b1 (mkSy per None), raised E_ATTR)
+       end.
+Proof. exact src_sync_start_eq. Qed.
+
+Theorem C17_src_pdo_start : forall conn b pd p,
+  let '(stopped, ph, pv, out) :=
+    src_pdo_start (osome p) (oget p) (osome (pd_period pd)) (oget (pd_period pd)) false in
+  let per := mkopt ph pv in
+  let b1 := if stopped then stop_opt b (pd_task pd) else b in
+  let pd1 := mkPd (pd_cob pd) (pd_nvars pd) (pd_data pd) per (if stopped then None else pd_task pd) in
+  pdo_start1 conn b pd p =
+  if out =? 0 then (b1, pd1, raised E_VALUE)
+  else match send_periodic conn b1 (pd_cob pd) (pd_data pd) pv false with
+       | Some (b2, pt) => (b2, mkPd (pd_cob pd) (pd_nvars pd) (pd_data pd) per (Some pt), ok)
+       | None => (b1, pd1, raised E_ATTR)
+       end.
+Proof. exact src_pdo_start_eq. Qed.
+
+Theorem C17_src_pdo_update : forall modify b pd,
+  pdo_update1 modify b pd =
+  if src_pdo_update_calls (osome (pd_task pd)) false then
+    match pd_task pd with
+    | Some pt => let '(b1, pt1) := pt_update modify b pt (pd_data pd) in
+                 (b1, mkPd (pd_cob pd) (pd_nvars pd) (pd_data pd) (pd_period pd) (Some pt1))
+    | None => (b, pd)
+    end
+  else (b, pd).
+Proof. exact src_pdo_update_eq. Qed.
+
+Theorem C17_src_pdo_stop : forall b pd,
+  pdo_stop1 b pd =
+  let '(stopped, holds) := src_pdo_stop (osome (pd_task pd)) false true in
+  (if stopped then stop_opt b (pd_task pd) else b,
+   mkPd (pd_cob pd) (pd_nvars pd) (pd_data pd) (pd_period pd) (if holds then pd_task pd else None)).
+Proof. exact src_pdo_stop_eq. Qed.
+
+Theorem C17_src_sync_stop : forall s,
+  sync_stop s =
+  let y := st_sync s in
+  let '(stopped, holds) := src_sync_stop (osome (sy_task y)) false true in
+  set_sync s (if stopped then stop_opt (st_bus s) (sy_task y) else st_bus s)
+           (mkSy (sy_period y) (if holds then sy_task y else None)).
+Proof. exact src_sync_stop_eq. Qed.
+
 Print Assumptions C17_no_leak_invariant.
 Print Assumptions C17_stopped_means_none.
 Print Assumptions C17_heartbeat_zero_stops.
@@ -169,3 +240,9 @@ Print Assumptions C17_attributes_current_after_start.
 Print Assumptions C17_attributes_stay_current.
 Print Assumptions C17_disconnect_stops_pdo_tasks.
 Print Assumptions C17_pdo_payload_current.
+Print Assumptions C17_src_update.
+Print Assumptions C17_src_sync_start.
+Print Assumptions C17_src_pdo_start.
+Print Assumptions C17_src_pdo_update.
+Print Assumptions C17_src_pdo_stop.
+Print Assumptions C17_src_sync_stop.
